@@ -165,6 +165,36 @@ theorem C13_reqopt_score_path_independent (hB : Lawful B VB WB) (fA fB : Nat →
 
 end combinators
 
+/-! ### Intersection and BufferedUnionScorer — open refinement statements
+
+OPEN (models tied by the correspondence run only; proofs not done):
+
+  theorem C13_intersection_lawful (hA : Lawful A VA WA) :
+      Lawful (Inter.ds A) (Inter.V VA WA) (Inter.W VA WA)
+  -- Inter.V s l : left/right/others valid for ll/lr/los with equal heads (or left exhausted and the
+  --   others valid-or-in-danger), l = ll ∩ lr ∩ ⋂ los.
+  -- Inter.W s t l : the danger zone Intersection::seek_danger itself leaves (left missed `t`, or
+  --   left found and right/other missed); `wseek` is `go_to_first_doc` over children that may be
+  --   in their own danger zone (uses the children's `wdoc`/`wseek`).
+  -- proof plan for `advance`: loop invariant "ll ∩ lr ∩ ⋂ los restricted to ≥ candidate = l.tail",
+  --   progress from `t < b` of the children's `SDPost`, no loss from its upper bound
+  --   `b ≤ next(child)`, which the contract promises for `doc(child) ≤ t` / `t0 ≤ t` — both hold
+  --   because the candidate is never below any child's floor.
+  theorem C13_intersection_count_partial : … (D.count s).1 = l.length
+  -- the state after the dense count is NOT valid for [] (C13_intersection_dense_count_end_counterexample)
+  theorem C13_intersection_order_irrelevant : the abstraction ll ∩ lr ∩ ⋂ los is invariant under
+  --   permutation of the children, hence (given C13_intersection_lawful) so are all observations.
+
+  theorem C13_union_lawful_partial (hA : Lawful A VA WA) (H : Nat) (hH : 0 < H ∧ 64 ∣ H)
+      (hroot : seek_danger targets are never below window_start)   -- excludes finding 5
+      : Lawful' (BUnion.ds A H) (BUnion.V VA H) (BUnion.W VA H)
+  -- Lawful' = Lawful without "the state after count is valid for []" (finding 3) ;
+  -- BUnion.V s l : children valid for ls, every child doc ≥ ws + H, window = deltas of the members
+  --   of the original children in (doc, ws + H), l = doc :: window docs ++ sorted union of ls.
+  theorem C13_union_score_path_independent_partial : for programs without fill_buffer
+  --   (findings 1, 2: C13_union_fill_buffer_*_counterexample), score at d = Σ child scores at d.
+-/
+
 /-! ### Disjunction (minimum-should-match heap) — refinement statement
 
 FULL STATEMENT (open; the model `Model/DocSet/Disjunction.lean` is tied to
